@@ -156,6 +156,17 @@ def c07a(ck, prog):
         descs += desc
         if any(re.search(r"n_params.* Gt .*call:n_params|call:n_params Lt .*n_params", d) for d in desc) and conv and not fz.dominates(conv[0].bb, pc.bb):
             ok = True
+            # ... for every route and every handler: the comparison runs under nothing but the two loops' own `Some` edges, and the
+            # loops run over the whole tables (no skip / take / filter; no `if route.n_params() > 0 { assert!(..) }`)
+            others = [d for d in desc if "n_params" not in d]       # (the limit assertion `n_params <= PARAMS_LIMIT` in front is not a condition on this one)
+            others += [d for d in desc if re.search(r"call:n_params (Gt|Ge|Ne) const 0|const 0 (Lt|Le) call:n_params", d)]
+            others += [x.kind for x in guards.facts_at(fz, prog, pc.bb) if x.kind in ("boolcall", "boolplace", "int")]
+            srcs = [decision.describe_deep(fz, c.args[0], 6) for c in fz.calls() if c.name == "next" and fz.dominates(c.bb, pc.bb)]
+            adapters = [a for sdesc in srcs for a in re.findall(r"\b(skip|skip_while|take_while|filter|filter_map|step_by)\(", sdesc)]
+            adapters += [a for sdesc in srcs for a in re.findall(r"\btake\((?:[^(),]|\([^()]*\))*,const \d+\)", sdesc)]       # (Iterator::take(n), not mem::take(x))
+            if others or adapters:
+                ok = False
+                descs.append("guarded by %s" % (others + adapters))
     how = "; ".join(descs) or how
     ck.ob(R, "finalize:arity-guard", ok, fz.loc(None), "" if ok else "Router::finalize does not refuse a handler that needs more path parameters than its route captures (%s): assume_* would read uninitialised memory" % how, how="assert!(handler.n_params <= route.n_params()) for every route, before Router::from")
 
